@@ -74,7 +74,7 @@ impl PreProcessContext {
 
         path = self.replace_placeholders(&path, workspace_str);
 
-        if path.starts_with('~') {
+        if path == "~" || path.starts_with("~/") || path.starts_with("~\\") {
             let home_dir = match dirs::home_dir() {
                 Some(path) => path,
                 None => {
@@ -82,7 +82,13 @@ impl PreProcessContext {
                     return path;
                 }
             };
-            path = home_dir.join(&path[2..]).to_string_lossy().to_string();
+            // skip `~` and the separator; `~` alone is the home directory itself
+            path = match path.get(2..) {
+                Some(rest) => home_dir.join(rest),
+                None => home_dir,
+            }
+            .to_string_lossy()
+            .to_string();
         } else if path.starts_with("./") {
             path = self
                 .workspace
@@ -178,4 +184,24 @@ fn get_luarocks_deploy_dir() -> String {
             }
         })
         .unwrap_or_default()
+}
+
+#[cfg(test)]
+mod tests {
+    use super::*;
+
+    #[test]
+    fn tilde_paths_never_panic() {
+        let context = PreProcessContext::new(PathBuf::from("/workspace"));
+        for path in ["~", "~é", "~x", "~/", "~\\", "~/x", "é~"] {
+            let _ = context.pre_process_path(path);
+        }
+        if let Some(home) = dirs::home_dir() {
+            assert_eq!(context.pre_process_path("~"), home.to_string_lossy());
+            assert_eq!(
+                context.pre_process_path("~/x"),
+                home.join("x").to_string_lossy()
+            );
+        }
+    }
 }
